@@ -270,6 +270,19 @@ MUTANTS = [
      [("src/yaml/encoding.rs", "let (emitted, kept) = tmp[..char_len].split_at(emit_len);", "let (emitted, kept) = tmp.split_at(emit_len);")]),
     ("r49-error-skipped", "violations", "R49", "C12", "R12.1", "a failing chunk is skipped instead of ending the translation",
      [("src/yaml.rs", "\t\t\tSome(doc) => doc?,\n", "\t\t\tSome(Ok(doc)) => doc,\n\t\t\tSome(Err(_)) => continue,\n")]),
+    # ---- round 7: on top of repaired "refactoring accident" variants
+    ("t13-flag-not-set", "violations", "T13", "C14", "R14.3", "the stdin flag lent as &mut bool is tested but never set",
+     [("src/main.rs", "\t\t*stdin_used = true;\n", "")]),
+    ("t13-name-lost", "violations", "T13", "C13", "R13.1", "translate failures are reported without the input's name",
+     [("src/main.rs", "\tresult.map_err(|err| Failure::input(path, err))?;", "\tresult.map_err(|err| Failure::Other(err.to_string()))?;")]),
+    ("t14-stdin-ignores-f", "violations", "T14", "C14", "R14.1", "source_format answers None for standard input instead of the -f value",
+     [("src/main.rs", "\t\tlet Self::File(path) = self else {\n\t\t\treturn requested;\n\t\t};", "\t\tlet Self::File(path) = self else {\n\t\t\treturn None;\n\t\t};")]),
+    ("t15-check-dropped", "violations", "T15", "C16", "R16.1", "checked() no longer looks at the error's kind",
+     [("src/pipecheck.rs", "\t\t\tif is_broken_pipe(&err) {\n\t\t\t\tterminate_for_broken_pipe();\n\t\t\t}\n", "")]),
+    ("t10-gate-too-wide", "violations", "T10", "C10", "R10.2", "raw-byte gate also lets str8..str32 markers through",
+     [("src/msgpack.rs", "matches!(marker, 0x80..=0x9f | 0xdc..=0xdf)", "matches!(marker, 0x80..=0x9f | 0xd9..=0xdf)")]),
+    ("t04-end-error-unrecorded", "violations", "T04", "C11", "R11.2", "end() failure replaced by the generic error without capturing it",
+     [("src/transcode/stream.rs", "\t\tseq.end().map_err(|ser_err| {\n\t\t\tself.0.capture_error(ErrorSource::Ser, ser_err);\n\t\t\tde::Error::custom(TRANSLATION_FAILED)\n\t\t})", "\t\tseq.end().map_err(|_| de::Error::custom(TRANSLATION_FAILED))")]),
 ]
 
 
